@@ -33,4 +33,6 @@ CANARIES = [
          edits=[(EP, '.connect_with(config, address, self.config.server_name())', '.connect_with({ let _ = config; self.config.client_config().clone() }, address, self.config.server_name())')]),
     dict(id='t-outbound-marked-inbound', unit=U, what='a dialed connection is recorded as Inbound', expect=['Connecting::new_outbound::origin'],
          edits=[(EP, 'Self::new(inner, ConnectionOrigin::Outbound)', 'Self::new(inner, ConnectionOrigin::Inbound)')]),
+    dict(id='t-listener-single-certificate', unit=U, what='the listener presents one certificate whatever name the hello asks for', expect=['EndpointConfigBuilder::server_config::certificate_only_for_a_known_name'],
+         edits=[(CFG, '.with_cert_resolver(Arc::new(server_cert_resolver));', '.with_single_cert(Vec::new(), pkcs8_der.clone_key())?;')]),
 ]
